@@ -854,6 +854,41 @@ where
   format!("ok same={} bytes={}", same as u8, bytes_to_hex(&outs[0]))
 }
 
+
+// ---------------------------------------------------------------------------------------------
+// bit-level machinery through the guarded hooks (q_compress::verif)
+//   bwords <piece,piece,...> <free,free,...>   -> words=<hex,...> bits=<n>
+//   bread  <piece,piece,...> <op> <op> ...     -> answers joined by " ; "
+//   bwrite <op> <op> ...                        -> answers joined by " ; "
+
+#[cfg(mwlon_quantile_compression_verif)]
+fn cmd_bits(toks: &[&str]) -> String {
+  let pieces = |s: &str| -> Vec<Vec<u8>> {
+    if s == "-" { Vec::new() } else { s.split(',').map(|p| if p == "_" { Vec::new() } else { hex_to_bytes(p) }).collect() }
+  };
+  match toks[0] {
+    "bwords" => {
+      let free: Vec<usize> = if toks.len() > 2 && toks[2] != "-" { toks[2].split(',').map(|x| x.parse().unwrap()).collect() } else { Vec::new() };
+      let (words, bits) = q_compress::verif::words_script(&pieces(toks[1]), &free);
+      format!("words={} bits={}", words.iter().map(|w| format!("{:x}", w)).collect::<Vec<_>>().join(","), bits)
+    }
+    "bread" => {
+      let ops: Vec<String> = toks[2..].iter().map(|s| s.to_string()).collect();
+      q_compress::verif::reader_script(&pieces(toks[1]), &ops).join(" ; ")
+    }
+    "bwrite" => {
+      let ops: Vec<String> = toks[1..].iter().map(|s| s.to_string()).collect();
+      q_compress::verif::writer_script(&ops).join(" ; ")
+    }
+    _ => "bad-op".to_string(),
+  }
+}
+
+#[cfg(not(mwlon_quantile_compression_verif))]
+fn cmd_bits(_toks: &[&str]) -> String {
+  "no-hooks".to_string()
+}
+
 // ---------------------------------------------------------------------------------------------
 
 fn answer(line: &str) -> String {
@@ -874,6 +909,7 @@ fn answer(line: &str) -> String {
       "mt" => dispatch!(toks[1], cmd_mt, &toks[2..]),
       "bigrt" => dispatch!(toks[1], cmd_bigrt, &toks[2..]),
       "ts" => cmd_ts(&toks[1..]),
+      "bwords" | "bread" | "bwrite" => cmd_bits(&toks),
       _ => "bad-op".to_string(),
     }
   }));
